@@ -94,7 +94,7 @@ RECIPES = {
     "Logged": ["Logged(Option('A'), 20, 'x', 'msg')"],
     "Computation": ["Computation(Option('A'), CallbackEffect(ident))"],
     "WithOptions": ["WithOptions(Option('A'), {'A': 1})", "WithOptions(Option('S'), {'S': {'X': 1}})", "WithDefaultOptions(Option('S.X'), {'S': {'X': 1}})",
-                    "WithDefaultOptions(Option('A', 5), {'A': 2})", "WithOptions(ds(Option('A'), Option('S.Y', 0)), {'S': {'X': 1}})"],
+                    "WithDefaultOptions(Option('A', 5), {'A': 2})", "WithDefaultOptions(Option('A') >> repr, {'A': 1})", "WithOptions(ds(Option('A'), Option('S.Y', 0)), {'S': {'X': 1}})"],
     "Cached": ["cached(Option('A'))", "cached(ds(Option('A'), Option('B', 2)))", "cached(switch(Option('A'), {1: Option('X')}, Option('Z', 3)))"],
     "Option": ["Option('A', rec('dflt'))","Option('A')", "Option('A', 5)", "Option('S.X', Option('B'))", "Option('A', '{B}')", "Option('A', domain=[1, 2])",
                "Option('A', 1, domain=Option('DOM', [1, 2]))", "Option('L.0')", "Option('A', domain=lambda t: {2: True}[t])",
@@ -104,7 +104,7 @@ RECIPES = {
     "Dataset": ["ds(Option('A'), Option('B', 2))", "ds(Option('A'), options={'B': 1})", "ds(ds(Option('A')), Option('S.X', 0), default_options={'S': {'X': 4}})",
                 "ds(Option('A'), Option('S.B', 0), Option('S.C', 'c-fallback'), default_options={'S': {'B': 2, 'C': 3}, 'T': 5})",
                 "ds(Option('A'), Option('B', 0), options={'X': 1}, default_options={'B': 3})"],
-    "Map": ["Map(Option('A'), {'A': Option('XS')}).apply(list)", "Map(ds(Option('A'), Option('B', 0)), {'A': Option('XS'), 'B': [1, 2]}).apply(list)"],
+    "Map": ["Map(switch(Option('K'), {'x': Option('X'), 'y': Option('Y')}), {'K': Option('KINDS')}).apply(list)","Map(Option('A'), {'A': Option('XS')}).apply(list)", "Map(ds(Option('A'), Option('B', 0)), {'A': Option('XS'), 'B': [1, 2]}).apply(list)"],
 }
 
 VALUES = [1, 2, 0, None, "{B}", [1, 2], {"X": 1}, True]
@@ -114,7 +114,7 @@ KEYS = ["A", "B", "T", "X", "Y", "Z", "S", "FN", "DOM", "XS", "L"]
 def dict_universe(rnd, n):
     out = [{}, {"A": 1}, {"A": 2, "B": 3}, {"A": 1, "X": 5, "Z": 9}, {"A": 1, "T": 0, "X": 4, "Y": 6, "Z": 7},
            {"S": {"X": 1, "Y": 2}}, {"A": "{B}", "B": 2}, {"A": "{NOPE}"}, {"A": 0}, {"A": None, "Z": 1}, {"A": 3, "S": {"X": 2}, "B": 1},
-           {"A": 1, "S": 5}, {"XS": [1, 2], "B": 1}, {"L": [7, 8]}, {"A": 1, "DOM": [1, 2]}, {"A": 3, "DOM": [1, 2]}]
+           {"A": 1, "S": 5}, {"XS": [1, 2], "B": 1}, {"KINDS": ["x", "y"], "X": 1, "Y": 2}, {"KINDS": ["y"], "Y": 2}, {"L": [7, 8]}, {"A": 1, "DOM": [1, 2]}, {"A": 3, "DOM": [1, 2]}]
     for _ in range(n):
         d = {}
         for k in rnd.sample(KEYS, rnd.randint(0, 5)):
@@ -363,8 +363,8 @@ def replay(case):
 
 def _walk(e, depth=0):
     yield e
-    if depth > 4:
-        return
+    if depth > 4 or type(e).__name__ in ("Map",):
+        return      # below a Map the options differ per iteration: no region of the recorded findings is claimed there
     for name in ("evaluatable", "overloads", "switch"):
         try:
             c = getattr(e, name, None)
